@@ -11,8 +11,22 @@ import common
 from common import MachineryError, cleanup, require_tlc_ok, run_tlc, workdir
 
 
+LAWS = {
+    "Weights": ["EssRange", "RelVarNonNeg", "PermInv", "ShiftLaw", "UniformEss"],
+    "Target": ["ZeroPriorMinusInf", "NanToMinusInf", "FiniteIffAllFinite", "TargetDef"],
+    "Resample": ["ProbsSumToOne", "ProbsPositive", "Monotone", "SameBetaUniform", "DrawnRowsLive"],
+    "InitialDraw": ["ExactlyN", "OnlyValid", "DrawOrder", "NoRowTwice"],
+    "SampleSet": ["SelectSound", "MetaKept", "IdentityOps"],
+    "Pipeline": ["RoundTrip", "InvJacNeg", "CompositeOrder", "JacAccumulates", "OnceEach"],
+    "Persist": ["NormIdempotent", "NormKeepsSentinels"],
+    "Dtypes": ["PrecisionIsIdentity"],
+    "Dispatch": ["DefaultPreconditioned"],
+    "Density": [],
+}
+
+
 def export_cases(module: str, consts: dict, defs_module: str | None = None, name=None,
-                 timeout=1800, workers=1):
+                 timeout=1800, workers=8):
     """Run TLC on `module` with literal constants; returns (cases list, TLCResult, ncases)."""
     wd = workdir("cases-" + (name or module))
     try:
@@ -21,12 +35,17 @@ def export_cases(module: str, consts: dict, defs_module: str | None = None, name
         lines = ["SPECIFICATION Spec", "CONSTANTS"]
         for k, v in consts.items():
             lines.append(f"  {k} {v}")
+        if not consts:
+            lines = ["SPECIFICATION Spec"]
+        # one TLC state per case; the laws of the reference model are state invariants
+        for law in LAWS.get(module.replace("MC_", ""), []):
+            lines.append(f"INVARIANT {law}")
         cfg.write_text("\n".join(lines) + "\n")
         r = run_tlc(module, str(cfg), workers=workers, env={"OUT_FILE": str(out)}, timeout=timeout,
                     metaname=name or module)
         require_tlc_ok(r, module)
-        if "Assumption" in r.out and "is false" in r.out:
-            raise MachineryError(f"{module}: a law of the reference model is false:\n" + r.out[-1500:])
+        if ("Assumption" in r.out and "is false" in r.out) or r.violated:
+            raise MachineryError(f"{module}: a law of the reference model is false ({r.violated}):\n" + r.out[-1500:])
         if not out.exists():
             raise MachineryError(f"{module} exported no cases:\n" + r.out[-1500:])
         cases = json.loads(out.read_text())
